@@ -539,6 +539,8 @@ def lib_bool(ev, args, kw, st, node):
 @lib("builtins.abs", "math.fabs", "numpy.abs", "numpy.absolute", "numpy.fabs")
 def lib_abs(ev, args, kw, st, node):
     v = args[0]
+    if isinstance(v, Tup) and all(isinstance(x, Num) for x in v.items):
+        return Tup([Num(z3.If(x.t >= 0, x.t, -x.t)) for x in v.items], islist=getattr(v, "islist", False), isrow=getattr(v, "isrow", False))
     if isinstance(v, Seq):
         return Seq.from_fn(v.n, v.esh, lambda k: map_leaves(v.at(k), lambda x: Num(z3.If(x.t >= 0, x.t, -x.t))))
     v = as_num(v)
@@ -696,6 +698,13 @@ def sum_facts(arr, lo, hi):
 @lib("numpy.sum", "builtins.sum")
 def lib_sum(ev, args, kw, st, node):
     v = args[0]
+    if isinstance(v, Tup) and v.items and all(isinstance(x, Num) for x in v.items) and not kw:
+        # a fixed-width row (e.g. one (x, y) point): the sum of its entries
+        allint = all(x.is_int for x in v.items)
+        t = v.items[0].t if allint else v.items[0].real()
+        for x in v.items[1:]:
+            t = t + (x.t if allint else x.real())
+        return Num(t)
     if not isinstance(v, Seq) or v.esh.kind not in ("int", "real"):
         raise Unsupported("sum of %r" % (v,))
     lo, hi = v.off, z3.simplify(v.off + v.n)
